@@ -264,6 +264,41 @@ fn directed_size_pairs(out: &mut Out, s: &Setup, r: &mut Rng) {
     }
 }
 
+/// Relinearisation at EVERY level of the chain, in both orders (multiply -> switch down -> relinearize; switch down -> square -> relinearize):
+/// below the first level the key-switching routine works with a proper prefix of the key-level primes plus the special prime
+fn directed_relin_levels(out: &mut Out, s: &Setup, r: &mut Rng) {
+    if !s.ctx.using_keyswitching() || s.levels().len() < 2 { return; }
+    let (n, t) = (s.n, s.t); let ev = &s.evaluator;
+    let relin = s.keygen.create_relin_keys(false);
+    let (m1, m2) = (rand_msg(r, n, t), rand_msg(r, n, t));
+    let (c1, c2) = (s.encryptor.encrypt_new(&plain_of(&m1)), s.encryptor.encrypt_new(&plain_of(&m2)));
+    let fresh = lib_budget(s, &c1).min(lib_budget(s, &c2));
+    let want = shadow_mul(&m1, &m2, t);
+    let (lt, ln) = ((t as f64).log2(), (n as f64).log2());
+    for depth in 1..s.levels().len() {
+        for order in 0..2 {
+            let res = std::panic::catch_unwind(std::panic::AssertUnwindSafe(|| {
+                let down = |c: &Ciphertext| { let mut x = c.clone(); for _ in 0..depth { x = ev.mod_switch_to_next_new(&x); } x };
+                let prod = if order == 0 { down(&ev.multiply_new(&c1, &c2)) } else { ev.multiply_new(&down(&c1), &down(&c2)) };
+                let rl = ev.relinearize_new(&prod, &relin);
+                (prod, rl) }));
+            let (prod, rl) = match res { Ok(x) => x, Err(_) => { let m = LAST_PANIC.with(|p| p.borrow().clone()); out.raw(&format!("!FAIL relin_level {} depth={} order={} :: multiply / mod switch / relinearize on valid operands panicked: {} # relin-level", scheme_name(s.scheme), depth, order, m.replace('\n', " "))); continue } };
+            // a-priori budget: the product rule of `Prog`, then the room left on the target level and the key-switch term
+            let lbits: f64 = s.level_qs(rl.parms_id()).iter().map(|&q| (q as f64).log2()).sum();
+            let qs = key_qs(s); let p_sp = *qs.last().unwrap() as f64; let qm = *s.level_qs(rl.parms_id()).iter().max().unwrap() as f64;
+            // order 0 multiplies at the first level; order 1 multiplies operands that were switched down first (their budget is capped by the room on that level)
+            let first_bits = s.level_qs(c1.parms_id()).iter().map(|&q| (q as f64).log2()).sum::<f64>();
+            let (pre, mbits) = if order == 0 { (fresh, first_bits) } else { (fresh.min(lbits - lt - ln - 6.0), lbits) };
+            let pred_mul = if s.scheme == SchemeType::BFV { pre - (lt + 2.0 * ln + 13.0) } else { 2.0 * pre - mbits - ln - 8.0 };
+            let pred = pred_mul.min(lbits - lt - 2.0 * ln - 26.0 - (qm / p_sp).log2().max(0.0)).floor() as i64 - 2;
+            let cls = format!("relin-level-{}-d{}-o{}", scheme_name(s.scheme), depth, order);
+            let view = |c: &Ciphertext| if s.scheme == SchemeType::BFV && c.is_ntt_form() { ev.transform_from_ntt_new(c) } else { c.clone() };
+            out.case(&format!("prog {} {} {}", s.ct_case(&view(&rl)), pred, fl(&trim(&want))), &cls, || s.dec_str(&view(&rl)));
+            if n <= 16 { out.case(&format!("ks_op relin 0 {} | {} | {} | {}", fl(&qs), s.ct_case(&prod), kskey_str(s, relin.key(2)), s.ct_case(&rl)), &format!("ks-{}", cls), || "ok".to_string()); }
+        }
+    }
+}
+
 pub fn run(out: &mut Out, thorough: bool, seed: u64, _extra: &[String]) {
     let mut r = Rng::new(seed);
     // correction-factor balancing on its own: prime and composite t, all kinds of factor pairs
@@ -283,6 +318,7 @@ pub fn run(out: &mut Out, thorough: bool, seed: u64, _extra: &[String]) {
         let s = match if pi < 2 { setup_wide_t(&mut r, thorough, scheme) } else { setup(&mut r, thorough, scheme) } { Some(s) => s, None => continue };
         directed_plain_cases(out, &s, &mut r);
         if thorough || pi < 10 { directed_size_pairs(out, &s, &mut r); }
+        if thorough || pi < 10 { directed_relin_levels(out, &s, &mut r); }
         let mut prog = Prog::new(&s, &mut r, 3);
         let mut done = 0; let mut tries = 0;
         while done < steps && tries < steps * 6 {
